@@ -26,5 +26,7 @@ for d in sorted(glob.glob('/verif/seeded/*/')):
      "caught": bool(caught),
      "caught_by_keys": ",".join(c["keys"] for c in caught),
     }
+    if os.path.exists(d+'note.txt'):
+        m["note"]=open(d+'note.txt').read().strip()
     json.dump(m,open(d+'meta.json','w'),indent=1)
     print(os.path.basename(d.rstrip('/')), 'caught' if caught else 'MISSED', m["caught_by_keys"][:100])
